@@ -16,13 +16,20 @@ From RU Require Import Base.Prelude Base.Utf8 Base.Utf8Facts Base.Outcome_c15 Mo
   Proofs.C02_SetHostFrame Proofs.C02_SetHostCanon Proofs.C02_SetScheme Proofs.C02_PathSetter Proofs.C02_SetPath
   Proofs.C09_Host Proofs.C16_RT6Model Proofs.C02_HistInst Proofs.C02_Reach4 Proofs.C02_Stmt4 Proofs.C02_QHost
   Proofs.C02_SetHostNone Proofs.C02_SetPathNoAuth Proofs.C02_SetPathOpaque Proofs.C02_Reach5
-  Proofs.C02_JoinAbs Proofs.C02_JoinPath.
+  Proofs.C02_JoinAbs Proofs.C02_JoinPath Proofs.C02_Segments Proofs.C02_SegmentsCanon.
 Open Scope N_scope.
 Open Scope list_scope.
 
 Lemma tail_ref_rel input : tail_ref input = true -> rel_ref input = true.
 Proof.
   unfold tail_ref, rel_ref. destruct (parse_scheme CUrlParser (input_new_trim_c0 input)); [discriminate | reflexivity].
+Qed.
+
+(* every operation of the model is in canon_op4, except path_segments_mut sessions *)
+Lemma canon_op4_all u o : canon_op4 u o = true \/ exists ops, o = OPathSegments ops.
+Proof.
+  destruct o; try (left; reflexivity); try (right; eexists; reflexivity).
+  destruct h; left; reflexivity.
 Qed.
 
 Section ReachC5.
@@ -34,6 +41,19 @@ Hypothesis HNE : host_nonempty hp hpo.
 
 Let HRT : HostRT hp hpo hd := proj1 HOK.
 Let HAb : host_above hp hpo hd := proj1 (proj2 HOK).
+
+(* one step with ANY operation of the model outside the known step classes *)
+Lemma canon_step_all u o u' : Canon hp hpo hd u -> op_args_ok o ->
+  known_step3 dbg hp hpo hd u o = false -> apply_op dbg hp hpo hd u o = Some u' -> nlen (ser u') <= U32_MAX_P ->
+  Canon hp hpo hd u'.
+Proof using HOK HNE HRT HAb.
+  intros C Ha Hk3 Ho Hb. destruct (canon_op4_all u o) as [H4 | [ops ->]].
+  - exact (canon_op4_step dbg hp hpo hd HOK HNE u o u' C H4 Ha Hk3 Ho Hb).
+  - pose proof (known_step3_2 dbg hp hpo hd u _ Hk3) as Hk.
+    destruct (known_path_parts dbg hp hpo hd u (OPathSegments ops) eq_refl Hk) as [Hm _].
+    cbn [apply_op op_args_ok] in *. destruct (option_map_fst_some _ _ Ho) as [s Es].
+    exact (psm_session_Canon dbg hp hpo hd HRT u ops u' s C Ha Hm Es Hb).
+Qed.
 
 Inductive ReachC5 : url -> Prop :=
 | RC5_parse ovr input u :
@@ -48,7 +68,7 @@ Inductive ReachC5 : url -> Prop :=
     (ovr = None \/ special_input input = false) ->
     parse_url dbg hp hpo hd ovr (Some b) input = POk u -> ReachC5 u
 | RC5_step u o u' :
-    ReachC5 u -> canon_op4 u o = true -> op_args_ok o -> known_step3 dbg hp hpo hd u o = false ->
+    ReachC5 u -> op_args_ok o -> known_step3 dbg hp hpo hd u o = false ->
     apply_op dbg hp hpo hd u o = Some u' -> nlen (ser u') <= U32_MAX_P -> ReachC5 u'
 | RC5_qpm u ops u' :
     ReachC5 u -> Forall op_ok ops -> query_pairs_session dbg u ops = Some u' ->
@@ -60,18 +80,18 @@ Proof.
                  | u ops u' Hr IH Hops Hs Hb].
   - exact (RC5_parse ovr input u Hu Hn Hov Hp).
   - exact (RC5_join_rel ovr b input u IH Hu (tail_ref_rel input Ht) Hov Hp).
-  - exact (RC5_step u o u' IH Ht Ha Hk Ho Hb).
+  - exact (RC5_step u o u' IH Ha Hk Ho Hb).
   - exact (RC5_qpm u ops u' IH Hops Hs Hb).
 Qed.
 
 Theorem ReachC5_Canon u : ReachC5 u -> Canon hp hpo hd u.
 Proof using HOK HNE HRT HAb.
   induction 1 as [ovr input u Hu Hn Hov Hp | ovr b input u Hr IH Hu Ht Hov Hp | ovr b input u Hr IH Hu Ht Hov Hp
-                 | u o u' Hr IH Ht Ha Hk Ho Hb | u ops u' Hr IH Hops Hs Hb].
+                 | u o u' Hr IH Ha Hk Ho Hb | u ops u' Hr IH Hops Hs Hb].
   - exact (parse_Canon dbg hp hpo hd HRT ovr input u HAb Hu Hn Hov Hp).
   - exact (join_rel_Canon dbg hp hpo hd HRT HAb ovr b input u IH Hu Ht Hov Hp).
   - exact (join_abs_Canon dbg hp hpo hd HRT ovr b input u HAb Hu Ht Hov Hp).
-  - exact (canon_op4_step dbg hp hpo hd HOK HNE u o u' IH Ht Ha Hk Ho Hb).
+  - exact (canon_step_all u o u' IH Ha Hk Ho Hb).
   - exact (qpm_Canon dbg hp hpo hd HRT u ops u' IH Hops Hs Hb).
 Qed.
 
@@ -88,7 +108,7 @@ Qed.
 Theorem ReachC5_Reachable4 u : ReachC5 u -> Reachable4 dbg hp hpo hd u.
 Proof using HOK HNE HRT HAb.
   intros H. induction H as [ovr input u Hu Hn Hov Hp | ovr b input u Hr IH Hu Ht Hov Hp | ovr b input u Hr IH Hu Ht Hov Hp
-                           | u o u' Hr IH Ht Ha Hk Ho Hb | u ops u' Hr IH Hops Hs Hb].
+                           | u o u' Hr IH Ha Hk Ho Hb | u ops u' Hr IH Hops Hs Hb].
   - apply (R4_parse dbg hp hpo hd ovr input u Hu Hp).
     apply (Canon_not_file_drive hp hpo hd). exact (parse_Canon dbg hp hpo hd HRT ovr input u HAb Hu Hn Hov Hp).
   - apply (R4_join dbg hp hpo hd ovr b input u IH Hu Hp).
@@ -96,7 +116,7 @@ Proof using HOK HNE HRT HAb.
   - apply (R4_join dbg hp hpo hd ovr b input u IH Hu Hp).
     apply (Canon_not_file_drive hp hpo hd). apply ReachC5_Canon. exact (RC5_join_abs ovr b input u Hr Hu Ht Hov Hp).
   - apply (R4_step dbg hp hpo hd u o u' IH Ha Hk Ho).
-    apply (Canon_not_file_drive hp hpo hd). apply ReachC5_Canon. exact (RC5_step u o u' Hr Ht Ha Hk Ho Hb).
+    apply (Canon_not_file_drive hp hpo hd). apply ReachC5_Canon. exact (RC5_step u o u' Hr Ha Hk Ho Hb).
   - apply (R4_qpm dbg hp hpo hd u ops u' IH Hops Hs).
     apply (Canon_not_file_drive hp hpo hd). apply ReachC5_Canon. exact (RC5_qpm u ops u' Hr Hops Hs Hb).
 Qed.
